@@ -13,6 +13,8 @@
 package main
 
 import (
+	"context"
+	"errors"
 	"fmt"
 	"math/rand/v2"
 	"os"
@@ -24,6 +26,15 @@ import (
 
 	"k8s.io/apimachinery/pkg/apis/meta/v1/unstructured"
 	"k8s.io/apimachinery/pkg/runtime/schema"
+	"k8s.io/apimachinery/pkg/types"
+	"sigs.k8s.io/controller-runtime/pkg/reconcile"
+
+	"github.com/google/go-containerregistry/pkg/name"
+	conregv1 "github.com/google/go-containerregistry/pkg/v1"
+
+	"github.com/crossplane/crossplane/internal/controller/pkg/manager"
+	"github.com/crossplane/crossplane/internal/xpkg"
+	"github.com/crossplane/crossplane/verifh/xrk"
 
 	v1 "github.com/crossplane/crossplane/apis/pkg/v1"
 	"github.com/crossplane/crossplane/verifh/kit"
@@ -675,6 +686,83 @@ func runFaultSeq(c *kit.Ctx, i int) {
 
 // ---- main ----
 
+// stubFetcher answers the package manager's HEAD request for the package source with a digest.
+type stubFetcher struct{ digest string }
+
+func (f stubFetcher) Fetch(context.Context, name.Reference, ...string) (conregv1.Image, error) {
+	return nil, errors.New("not used")
+}
+func (f stubFetcher) Head(context.Context, name.Reference, ...string) (*conregv1.Descriptor, error) {
+	h, err := conregv1.NewHash(f.digest)
+	if err != nil {
+		return nil, err
+	}
+	return &conregv1.Descriptor{Digest: h}, nil
+}
+func (f stubFetcher) Tags(context.Context, name.Reference, ...string) ([]string, error) { return nil, nil }
+
+// runManagerCreated: the revision is created by the REAL package manager reconciler (not by the
+// harness) for packages whose names are short, dotted, or 64-100 characters long, and then
+// established by the real revision reconciler. Every established object keeps the package as a
+// non-controlling owner.
+func runManagerCreated(c *kit.Ctx, i int) {
+	name := fmt.Sprintf("manager-created/%d", i)
+	if !c.Want(name) {
+		return
+	}
+	r := c.Rng("manager-created", i)
+	pkg := []string{
+		"pk",
+		"configuration-of-the-platform-team-for-all-regions-and-all-environments-eu",             // 74 characters
+		"platform.configurations.acme-corporation.example.org",                                   // dotted
+		"a-configuration-package-with-a-really-long-name-that-still-is-a-valid-dns-subdomain-of-100-characters", // 100
+	}[i%4]
+	x := newExec(c, name, map[string]any{"package": pkg}, "Configuration", uint64(c.Seed)*313+uint64(i), 2, pkg)
+	specs := genObjs(r, "Configuration", 3+r.IntN(3), false, false)
+	mcl := mgrClient{x.w.Client("pkgmgr")}
+	digest := fmt.Sprintf("sha256:%064x", uint64(i)+1)
+	mrec := manager.NewReconciler(xrk.NewManager(x.w, mcl),
+		manager.WithNewPackageFn(x.kind.np),
+		manager.WithNewPackageRevisionFn(x.kind.nr),
+		manager.WithNewPackageRevisionListFn(func() v1.PackageRevisionList { return &v1.ConfigurationRevisionList{} }),
+		manager.WithRevisioner(manager.NewPackageRevisioner(stubFetcher{digest}, manager.WithDefaultRegistry("xpkg.example.org"))),
+		manager.WithConfigStore(xpkg.NewImageConfigStore(mcl, nsXP)),
+	)
+	for k := 0; k < 2; k++ {
+		if _, err := mrec.Reconcile(bg, reconcile.Request{NamespacedName: types.NamespacedName{Name: pkg}}); err != nil {
+			// e.g. an API server that refuses the revision the manager wants to create: then nothing is
+			// established, which is fine
+			c.Count("manager_created_package_reconcile_errors", 1)
+		}
+	}
+	var revName string
+	for _, o := range x.w.ListObjs(x.kind.revGVK.GroupKind()) {
+		for _, ow := range sim.OwnerRefs(o) {
+			if sim.Str(ow, "uid") == x.pkgUID {
+				revName = sim.Str(o, "metadata", "name")
+			}
+		}
+	}
+	c.Eval(name, len(pkg) > 63)
+	c.Count("manager_created_cases", 1)
+	if revName == "" {
+		c.Count("manager_created_no_revision", 1)
+		return
+	}
+	rv := x.w.GetObj(sim.Key{Group: x.kind.revGVK.Group, Kind: x.kind.revGVK.Kind, Name: revName})
+	ri := &revInfo{Name: revName, UID: sim.Str(rv, "metadata", "uid"), Specs: specs, Content: 1}
+	x.revs[revName] = ri
+	x.mon.revUIDs[ri.UID] = revName
+	for _, s := range specs {
+		x.mon.tracked[s.key()] = true
+	}
+	x.useRealReconciler()
+	for k := 0; k < 2; k++ {
+		_ = x.reconcile(revName)
+	}
+	x.flush()
+}
+
 func main() {
 	if pf := os.Getenv("VERIF_PROFILE"); pf != "" {
 		f, _ := os.Create(pf)
@@ -712,6 +800,9 @@ func main() {
 	for i := 0; i < c.N(5, 20); i++ {
 		jobs = append(jobs, job{"rseq", i})
 	}
+	for i := 0; i < c.N(8, 24); i++ {
+		jobs = append(jobs, job{"mgr", i})
+	}
 	for i := 0; i < c.N(50, 250); i++ {
 		jobs = append(jobs, job{"fault", i})
 	}
@@ -731,6 +822,8 @@ func main() {
 						runSingle(c, j.i)
 					case "large":
 						runLarge(c, j.i)
+					case "mgr":
+						runManagerCreated(c, j.i)
 					case "seq":
 						runSeq(c, j.i, false)
 					case "rseq":
